@@ -160,7 +160,9 @@ def stepC11 (d : DSt) (op : String) (got : String) : StepResult DSt :=
     -- the chunking, the message size or the age of the connection
     if life.toNat?.isNone then { st := {}, expected := some "bad-op" }
     else if k == "tcp" then { st := { kind := .sock, lis := true }, expected := some "ok", cov := ["new-lis-tcp"] }
-    else if k == "ws" then { st := { kind := .sockS, sendMtu := 1073741824, lis := true }, expected := some "ok", cov := ["new-lis-ws"] }
+    -- (a WebSocket message larger than the NDN packet size limit is dropped by the receiving transport, the
+    -- messages after it are delivered as before: same outcome as a block the sender's MTU refuses)
+    else if k == "ws" then { st := { kind := .sockS, sendMtu := maxPkt, lis := true }, expected := some "ok", cov := ["new-lis-ws"] }
     else { st := {}, expected := some "bad-op" }
   | ["pause", ms] =>
     if d.lis && ms.toNat?.isSome then { st := d, expected := some "ok", spec := crash, cov := ["lis-pause"] }
